@@ -49,7 +49,7 @@ print("RESULT " + json.dumps({{"scenarios": len(sc), "diffs": len(diffs), "monit
 def main():
     pid, x = sys.argv[1], sys.argv[2]
     props_to_run = sys.argv[3:] or [pid]
-    d = f'/tmp/mutants/{pid}.out/{x}'
+    d = f'/tmp/mutants/{pid}{os.environ.get("MUT_SUFFIX", ".out")}/{x}'
     res = {'mutant': f'{pid}{x}'}
     sh(f'git -C {WT} checkout -q -- . && git -C {WT} clean -fdq')
     rc0, o0 = sh(f'cd {WT} && PYTHONPATH={WT} /venv/bin/python {d}/demo.py')
